@@ -36,7 +36,8 @@ def impl_p2d(case):
             try:
                 out["D"] = sorted([lab.inv(a), lab.inv(b)] for a, b in d.edges)
                 out["RN"] = sorted(lab.inv(v) for v in d.nodes)
-                out["type"] = type(d).__name__
+                import networkx as _nx
+                out["type"] = "DiGraph" if isinstance(d, _nx.DiGraph) and not d.is_multigraph() else type(d).__name__
             except Exception as e:  # foreign nodes in the result
                 out["res"] = "bad-result:" + type(e).__name__
         except ValueError as e:
